@@ -191,7 +191,8 @@ fn classify_panic<T>(payload: Box<dyn Any + Send>) -> Caught<T> {
         line: 0,
         msg: "?".into(),
     });
-    if info.file.contains("/verif/harness/") || info.file.starts_with("src/") {
+    // a panic raised by the harness' own code (wherever this copy of the harness was built)
+    if info.file.starts_with(env!("CARGO_MANIFEST_DIR")) || info.file.contains("/verif/harness/") || info.file.starts_with("src/") {
         Caught::Harness(info)
     } else {
         Caught::Panic(info)
